@@ -823,6 +823,14 @@ func (p *Posix) createObjVersion(bucket, key string, size int64, acc auth.Accoun
 		return versionPath, err
 	}
 
+	// a version id can come back (the null version of a key is replaced
+	// again and again): with attributes kept by path, those of an earlier
+	// file of this name would be inherited
+	err = p.clearStaleAttributes(versionPath, "")
+	if err != nil && !errors.Is(err, meta.ErrNoSuchKey) && !errors.Is(err, fs.ErrNotExist) {
+		return versionPath, fmt.Errorf("clear stale version attributes: %w", err)
+	}
+
 	// Copy the object attributes(metadata)
 	for _, attr := range attrs {
 		data, err := p.meta.RetrieveAttribute(sf, bucket, key, attr)
